@@ -52,6 +52,8 @@ def model (line : String) : String :=
       s!"ok {hexOf p.merkle} {p.index} {hexOf p.headers} {hexOf p.preimage} {hexOf p.coinbaseProof} {hexOf txid} V={v}"
 
 def monitor (op obs : String) : String :=
+  -- two-call discipline of the harness: a proof held across later assemblies must not change
+  if (obs.splitOn " ALIASED").length > 1 then "FAIL proof-overwritten-by-later-assembly" else
   match parseCase op with
   | none => "FAIL bad-op"
   | some c =>
